@@ -101,8 +101,8 @@ def vacancy_cost(crys, chem, jn):
 
 
 @st.composite
-def setups(draw, kinds=("interstitial", "vacancy"), nsupers=(1, 3), maxsites_quick=130, exclude_nomap=False, maxcost=40):
-    kind = draw(st.sampled_from(list(kinds)))
+def setups(draw, kinds=("interstitial", "vacancy"), nsupers=(1, 3), maxsites_quick=130, exclude_nomap=False, maxcost=60):
+    kind = draw(st.sampled_from(list(kinds) + (["vacancy"] if "vacancy" in kinds else [])))
     names = CAT_VAC if kind == "vacancy" else CAT_INT
     rec = draw(cs.recipes(dim=3, names=names, p_catalogue=0.5, max_species=3, max_mobile=4, max_other=3))
     crys = cs.build(rec)
@@ -136,7 +136,13 @@ def setups(draw, kinds=("interstitial", "vacancy"), nsupers=(1, 3), maxsites_qui
     if exclude_nomap and kind == "interstitial":
         pool = [M for M in pool if not nomap_region(crys, chem, sl, jn, M)]  # n*I always survives
     n = draw(st.integers(nsupers[0], nsupers[1]))
-    supers = [draw(st.sampled_from(pool)) for _ in range(n)]
+    big = [M for M in pool if abs(det(M)) >= 18]  # cells that can hold the kinetic shell (the "must not warn" class)
+    supers = []
+    for _ in range(n):
+        if big and draw(st.integers(0, 2)) == 0:
+            supers.append(draw(st.sampled_from(big)))
+        else:
+            supers.append(draw(st.sampled_from(pool)))
     return {"recipe": rec, "chem": chem, "kind": kind, "k": k, "supers": supers}
 
 
